@@ -49,6 +49,8 @@ func runC01(w *World) *Result {
 	}
 	r.Rule("R-C01-numcmp", "Bash test commands order numbers with -lt/-le/-gt/-ge, never with < or > (text order)", 3)
 	BashTestOrderRule(w, bash, r, "R-C01-numcmp", func(l *Line) bool { return l.Em.Helper == "" })
+	r.Rule("R-C01-stderr", "a converter-owned variable that some template sets to the empty text is never an unquoted operand of a numeric test (the test command would complain on stderr)", 1)
+	BashEmptyOperandRule(w, bash, r, "R-C01-stderr")
 	ExitRule(w, bash, batch, r, "R-C01-exit")
 	r.Rule("R-C01-lower", "for / if lowering follows the protocol (init, ForStart, guarded increment, condition, ForCondition, body, ForEnd; all conditions before IfStart)", 2)
 	ProtoRule(w, r, "R-C01-lower", func(n string) bool { return n == "For" || n == "If" || n == "Block" })
@@ -388,4 +390,74 @@ func handlesThroughInterface(w *World, fn *ssa.Function, node string) bool {
 	}
 	obj := w.Pkgs["parser"].Types.Scope().Lookup(node)
 	return obj != nil && (types.Implements(obj.Type(), iface) || types.Implements(types.NewPointer(obj.Type()), iface))
+}
+
+// BashEmptyOperandRule: an operand of a numeric test ([ a -eq b ]) that is an unquoted expansion
+// of a variable the converter owns must never expand to nothing: `[ -eq 1 ]` makes the test
+// command write "unary operator expected" to stderr (the script goes on with the wrong branch
+// status). A variable that some template sets to the empty text (`_fv0=`) is therefore not
+// used as an unquoted numeric operand. Operands that come from the program (holes) are judged
+// elsewhere: they are the 1/0 or number texts of evaluated expressions.
+func BashEmptyOperandRule(w *World, b *Backend, r *Result, rule string) {
+	// a name is its literal text, or the description of the hole that stands for it (the current
+	// loop flag read from the stack)
+	nameOf := func(tok string, parts []Part) (string, bool) {
+		rs := []rune(tok)
+		if len(rs) == 1 && rs[0] >= 0xE000 && int(rs[0]-0xE000) < len(parts) {
+			return Tmpl{parts[rs[0]-0xE000]}.String(), true
+		}
+		for _, c := range rs {
+			if c >= 0xE000 {
+				return "", false
+			}
+		}
+		return tok, strings.HasPrefix(tok, "_")
+	}
+	emptySet := map[string]string{}
+	reAssign := regexp.MustCompile(`^\s*(?:local\s+)?([A-Za-z_][A-Za-z0-9_]*|[\x{E000}-\x{F8FF}])=(?:""|'')?\s*$`)
+	for _, l := range b.Lines {
+		if l.Bash == nil || l.Bash.Comment {
+			continue
+		}
+		txt, parts := flattenPUA(l.Variant)
+		if m := reAssign.FindStringSubmatch(txt); m != nil {
+			if name, ok := nameOf(m[1], parts); ok {
+				emptySet[name] = lineKey(l)
+			}
+		}
+	}
+	reTest := regexp.MustCompile(`(?:\[|test) (?:\$\{?([A-Za-z_][A-Za-z0-9_]*|[\x{E000}-\x{F8FF}])\}? -(?:eq|ne|lt|le|gt|ge) \S+|\S+ -(?:eq|ne|lt|le|gt|ge) \$\{?([A-Za-z_][A-Za-z0-9_]*|[\x{E000}-\x{F8FF}])\}?)(?: |$)`)
+	seen := map[string]bool{}
+	n := 0
+	for _, l := range b.Lines {
+		if l.Bash == nil || l.Bash.Comment || l.Em.Helper != "" {
+			continue
+		}
+		txt, parts := flattenPUA(l.Variant)
+		for _, m := range reTest.FindAllStringSubmatch(txt, -1) {
+			for _, tok := range m[1:] {
+				if tok == "" {
+					continue
+				}
+				name, ok := nameOf(tok, parts)
+				if !ok {
+					continue
+				}
+				key := fmt.Sprintf("emptyoperand:bash:%s:%s", lineKey(l), name)
+				if seen[key] {
+					continue
+				}
+				seen[key] = true
+				by, isEmpty := emptySet[name]
+				if !isEmpty {
+					continue // (not counted: a hole that is never set to nothing is the text of an evaluated expression)
+				}
+				n++
+				r.Bad(rule, key, w.Pos(l.Em.Pos), fmt.Sprintf("the numeric test uses the unquoted expansion of %s, which %s sets to the empty text: the test command is left with one operand and writes 'unary operator expected' to stderr: %s", name, by, l.Variant.String()))
+			}
+		}
+	}
+	if n == 0 {
+		r.Ok(rule, "emptyoperand:bash", "-", fmt.Sprintf("no variable that a template sets to the empty text (%d such) is an unquoted operand of a numeric test", len(emptySet)))
+	}
 }
